@@ -93,10 +93,12 @@ class MList(list):
         super().__init__(items)
         self.ident = ident
         self.unknown = False
+        self.grown = False  # something was appended after the contents became unknown: certainly non-empty
 
     def forget(self) -> None:
         del self[:]
         self.unknown = True
+        self.grown = False
 
 
 class MSet:
@@ -106,6 +108,13 @@ class MSet:
         self.items = list(items)
         self.ident = ident
         self.unknown = False
+
+
+@dataclass
+class Closure:
+    """A nested function together with the frame that defined it (it reads that frame's variables)."""
+    fn: FuncInfo
+    frame: Any
 
 
 @dataclass
@@ -157,7 +166,7 @@ class SymEval:
                  call_models: dict[str, Callable] | None = None,
                  atom_map: Callable[[ast.AST, 'Frame'], str | None] | None = None,
                  inline: bool = True, max_paths: int = 4096, watch_calls: bool = False,
-                 no_inline: set[str] | None = None, inline_only: set[str] | None = None, loop_mode: str = 'once') -> None:
+                 no_inline: set[str] | None = None, inline_only: set[str] | None = None, loop_mode: Any = 'once') -> None:
         self.repo = repo
         self.bitnames = bitnames or default_bitnames(repo)
         self.call_models = call_models or {}
@@ -377,15 +386,60 @@ class Frame:
             raise _Break()
         elif isinstance(st, ast.Continue):
             raise _Continue()
-        elif isinstance(st, (ast.FunctionDef, ast.ClassDef)):
+        elif isinstance(st, ast.FunctionDef):
+            q = f'{self.fn.qualname.split("::")[0]}.{st.name}'
+            if self.ev.repo.has_func(self.fn.module, q):
+                self.locals[st.name] = Closure(self.ev.repo.func(self.fn.module, q), self)
+            else:
+                self.locals[st.name] = Opaque(f'def {st.name}')
+        elif isinstance(st, ast.ClassDef):
             self.locals[st.name] = Opaque(f'def {st.name}')
         elif isinstance(st, (ast.Global, ast.Nonlocal, ast.Import, ast.ImportFrom, ast.Delete, ast.Assert)):
             return
         else:
             raise AnalysisError(f'{self.fn.fq}: statement {type(st).__name__} not supported by the decision-table extractor')
 
+    def _search_loop(self, st: ast.For) -> bool:
+        """`for x in IT: if P(x): <flags := constants>; break` is `if any(P(x) for x in IT): <flags := constants>`.
+
+        Evaluated exactly like the builtin spelling, so both give the same atom and the same effects.
+        """
+        body = [s for s in st.body if not (isinstance(s, ast.Expr) and isinstance(s.value, ast.Constant))]
+        if st.orelse or len(body) != 1 or not isinstance(body[0], ast.If) or body[0].orelse:
+            return False
+        test = body[0].test
+        if not isinstance(test, (ast.Call, ast.Attribute, ast.Name)):
+            return False
+        acts = body[0].body
+        if not acts or not isinstance(acts[-1], ast.Break):
+            return False
+        for a in acts[:-1]:
+            if not (isinstance(a, ast.Assign) and len(a.targets) == 1 and isinstance(a.targets[0], ast.Name) and
+                    isinstance(a.value, ast.Constant)):
+                return False
+        saved = dict(self.locals)
+        it = self.eval(st.iter)
+        self.assign(st.target, Opaque(f'elem({_tag(it)})'))
+        self.ev.ctx.append(f'for:{_tag(it)}')
+        try:
+            v = self.eval(test)
+        finally:
+            self.ev.ctx.pop()
+        for k in {x.id for x in ast.walk(st.target) if isinstance(x, ast.Name)}:
+            if k in saved:
+                self.locals[k] = saved[k]
+            else:
+                self.locals.pop(k, None)
+        if self.truth_value(Opaque(f'any(comp({_tag(v)} for {_tag(it)}))')):
+            for a in acts[:-1]:
+                self.locals[a.targets[0].id] = a.value.value
+        return True
+
     def loop(self, st: ast.For | ast.While) -> None:
         """Abstract a loop: run the body once with an opaque element, then weaken what the body changed."""
+        mode0 = self.ev.loop_mode(st) if callable(self.ev.loop_mode) else self.ev.loop_mode
+        if isinstance(st, ast.For) and mode0 != 'skip' and self._search_loop(st):
+            return
         before = dict(self.locals)
         before_attrs = dict(self.self_obj.attrs) if self.self_obj else {}
         if isinstance(st, ast.For):
@@ -430,7 +484,8 @@ class Frame:
                 v = None
             if isinstance(v, (MList, MSet)):
                 v.unknown = True
-        if self.ev.loop_mode == 'skip':
+        mode = self.ev.loop_mode(st) if callable(self.ev.loop_mode) else self.ev.loop_mode
+        if mode == 'skip':
             self.ev.ctx.pop()
             self.ev.events.append(('loop', st, tuple(self.ev.ctx)))
             for k in bound:
@@ -518,7 +573,7 @@ class Frame:
         if isinstance(v, Tok):
             return bool(v.parts)
         if isinstance(v, MList):
-            if len(v):
+            if len(v) or v.grown:
                 return True
             return self.ev.decide(f'nonempty({v.ident})') if v.unknown else False
         if isinstance(v, MSet):
@@ -557,6 +612,11 @@ class Frame:
     def x_Name(self, n: ast.Name) -> Any:
         if n.id in self.locals:
             return self.locals[n.id]
+        outer = getattr(self, 'outer', None)
+        while outer is not None:
+            if n.id in outer.locals:
+                return outer.locals[n.id]
+            outer = getattr(outer, 'outer', None)
         if n.id in self.mod.env:
             return self.mod.env[n.id]
         if n.id in ('True', 'False', 'None'):
@@ -598,7 +658,9 @@ class Frame:
         return tuple(self.eval(e) for e in n.elts)
 
     def x_List(self, n: ast.List) -> Any:
-        return MList([self.eval(e) for e in n.elts], self.ev.new_ident('list'))
+        v = MList([self.eval(e) for e in n.elts], self.ev.new_ident('list'))
+        self.ev.events.append(('new', v.ident, tuple(v), n, tuple(self.ev.ctx)))
+        return v
 
     def x_Set(self, n: ast.Set) -> Any:
         vals = [self.eval(e) for e in n.elts]
@@ -1014,6 +1076,20 @@ class Frame:
                     return base.format(*args, **kwargs)  # constant folding of a template
                 except (IndexError, KeyError):
                     pass
+        if isinstance(f, ast.Attribute) and f.attr == 'join' and len(args) == 1 and not kwargs and isinstance(f.value, ast.Constant) and \
+                f.value.value == '' and isinstance(args[0], (MList, tuple)) and not getattr(args[0], 'unknown', False):
+            # ''.join of a known sequence: the concatenation of its parts (one part: that part)
+            items = list(args[0])
+            self.ev.events.append(('call', "''.join", args, kwargs, n, tuple(self.ev.ctx)))
+            if all(isinstance(x, str) for x in items):
+                return ''.join(items)
+            if len(items) == 1:
+                return items[0]
+            if all(isinstance(x, (str, Tok, Opaque)) for x in items):
+                parts: tuple = ()
+                for x in items:
+                    parts += _parts(x)
+                return Tok(parts)
         target = self.eval(f)
         if isinstance(target, BoundBuiltin):
             name = f'{target.obj.ident}.{target.attr}'
@@ -1040,6 +1116,13 @@ class Frame:
             return model(self, n, args, kwargs)
         may_inline = self.ev.inline and name not in self.ev.no_inline and \
             (self.ev.inline_only is None or name in self.ev.inline_only)
+        if isinstance(target, Closure):
+            params = target.fn.params()
+            amap = dict(zip(params, args))
+            amap.update(kwargs)
+            fr = Frame(self.ev, target.fn, amap, target.frame.self_obj)
+            fr.outer = target.frame
+            return fr.run()
         if isinstance(target, BoundMethod) and may_inline:
             return self._inline(target.fn, args, kwargs, target.obj)
         if isinstance(target, FuncRef) and may_inline:
@@ -1072,7 +1155,7 @@ class Frame:
             return Opaque(f'{obj.ident}.{attr}(' + ', '.join(_tag(a) for a in args) + ')')
         if attr == 'append' and len(args) == 1:
             if obj.unknown:
-                pass  # order behind unknown elements is not tracked: stays "known prefix + unknown rest"
+                obj.grown = True  # order behind unknown elements is not tracked: stays "known prefix + unknown rest"
             else:
                 list.append(obj, args[0])
             return None
@@ -1187,6 +1270,8 @@ def _tag(v: Any) -> str:
         if isinstance(v, MList) and not v.unknown:
             return '[' + ', '.join(_tag(x) for x in v) + ']'
         return v.ident
+    if isinstance(v, Closure):
+        return f'def {v.fn.name}'
     if isinstance(v, BoundBuiltin):
         return f'{_tag(v.obj)}.{v.attr}'
     if isinstance(v, frozenset):
